@@ -106,7 +106,8 @@ fn wt_text<'a>(e: &'a Elem, c: &'a Compared) -> &'a str {
 
 fn differs(e: &Elem, c: &Compared) -> Option<bool> {
     let p = c.pinned.as_ref()?;
-    if c.wt.status == Status::Timeout {
+    if c.wt.status == Status::Timeout || matches!(c.wt.status, Status::Infra(_)) {
+        // a case the harness itself could not run is inconclusive, never a verdict
         return None;
     }
     // a batch run leaves an echoing input as it is; on standard input it is echoed: both are the input
@@ -237,7 +238,7 @@ pub fn run(tier: &str, seed: u64, out: &Path) -> i32 {
         for (base, ix) in &by_base {
             if let (Some(a), Some(b), Some(c)) = (ix[0], ix[1], ix[2]) {
                 let r = [&res[a].wt, &res[b].wt, &res[c].wt];
-                if r.iter().any(|x| x.status == Status::Timeout) {
+                if r.iter().any(|x| x.status == Status::Timeout || matches!(x.status, Status::Infra(_))) {
                     o.count("a:timeout");
                     continue;
                 }
